@@ -168,7 +168,9 @@ static int filter_assembly_str_fsa(const char unfiltered_str[],
          unfiltered_str[i] != '\0' && j < MAX_LINE_LEN - 1) {
     switch (filter_state) {
     case BEGIN:
-      if (unfiltered_str[i] >= 'A' && unfiltered_str[i] <= 'z') {
+      // only blanks are skipped in front of a line: any other character is
+      // part of its first word
+      if (unfiltered_str[i] > '!') {
         filter_str[j++] = (char)tolower(unfiltered_str[i]);
         filter_state = FIRST_CH;
       }
